@@ -370,7 +370,20 @@ func propC20(t *rapid.T, is64 bool) {
 		}
 	}
 	// --- results are independent of the index: mutate a returned bitmap, the index is unchanged
-	x.MutateExistenceResultProbe()
+	var domain []int64 // the whole value domain when it is small: BatchEqual may then take a shortcut
+	if bc := x.BitCount(); bc <= 4 {
+		for v := int64(0); v < 1<<uint(bc); v++ {
+			domain = append(domain, v)
+		}
+		if is64 {
+			for v := int64(1); v <= 1<<uint(bc); v++ {
+				domain = append(domain, -v)
+			}
+		}
+	} else {
+		domain = append(domain, pool...)
+	}
+	x.MutateResults(workers, domain)
 	if d := checkIndex(x, m, u); d != "" {
 		fail("mutating a bitmap returned by a query changed the index: %s", d)
 	}
